@@ -437,11 +437,31 @@ def map_collect_expr_to_loop(s, rewrites=None):
         pos = m.start() + len(new)
 
 
+SPEC_SPELLING = [('.wrapping_neg()', '.spec_wrapping_neg()')]
+
+
 def sort_closure_spec(s, rewrites=None):
     """D24: a comparison closure `|a, b| EXPR` handed to sort_by / sort_unstable_by (EXPR an expression built from `.cmp(&..)`)
     is given a name for its result and the specification that says what EXPR computes:
         |a, b| -> (ord_out: Ordering) ensures ord_out == EXPR' { EXPR }      (EXPR' = EXPR with `.cmp(` spelled `.cmp_spec(`)
     The executable closure is unchanged; a closure without a specification is opaque to the verifier."""
+    # D24k: `v.sort_by_key(|x| KEY)` is, by its definition in std, `v.sort_by(|a, b| KEY[a].cmp(&KEY[b]))` (same for the
+    # unstable pair): spelled that way first, so that the key expression gets the same treatment as a comparison closure.
+    rxk = re.compile(r'\.(sort_by_key|sort_unstable_by_key)\(\|(\w+)\|\s*')
+    while True:
+        m = rxk.search(s)
+        if not m:
+            break
+        op = s.find('(', m.start())
+        cp = _match(s, op, '(', ')')
+        key = s[m.end():cp].strip()
+        if key.startswith('{') or re.search(r'\breturn\b|\?|;|\|', key):
+            raise Undecided('unsupported construct: sort key closure is not a plain expression (D24k not applicable)')
+        ka = re.sub(r'\b%s\b' % re.escape(m.group(2)), 'key_a', key)
+        kb = re.sub(r'\b%s\b' % re.escape(m.group(2)), 'key_b', key)
+        if rewrites is not None:
+            rewrites.append('D24k `%s(|%s| %s)` spelled as the comparison sort std defines it to be' % (m.group(1), m.group(2), key))
+        s = s[:m.start()] + '.%s(|key_a, key_b| (%s).cmp(&(%s)))' % (m.group(1)[:-4], ka, kb) + s[cp + 1:]
     rx = re.compile(r'\.(sort_by|sort_unstable_by)\(\|(\w+), (\w+)\|\s*')
     pos = 0
     while True:
@@ -453,7 +473,13 @@ def sort_closure_spec(s, rewrites=None):
         expr = s[m.end():cp].strip()
         if expr.startswith('{') or '.cmp(' not in expr or re.search(r'\breturn\b|\?|;', expr):
             raise Undecided('unsupported construct: sort closure is not a plain comparison expression (D24 not applicable)')
+        if re.search(r'[-+*/%^!<>]|\bas\b', expr):
+            # arithmetic means something else in a specification (mathematical integers) than in the closure (machine integers):
+            # the closure's own text would not be its specification
+            raise Undecided('unsupported construct: sort closure computes with operators (D24 restates field accesses and method calls only)')
         spec = expr.replace('.cmp(', '.cmp_spec(')
+        for exec_m, spec_m in SPEC_SPELLING:      # exec-only std methods with a spec twin in the unit's environment
+            spec = spec.replace(exec_m, spec_m)
         new = '.%s(|%s, %s| -> (ord_out: Ordering) ensures ord_out == %s { %s })' % (m.group(1), m.group(2), m.group(3), spec, expr)
         if rewrites is not None:
             rewrites.append('D24 specification of the sort closure `%s`' % expr)
